@@ -13,6 +13,13 @@ fn run_conn_cases<W: Write>(cases: &[verif_harness::connrun::ConnCase], tmpdir: 
             sc.spawn(|| loop {
                 let i = next.fetch_add(1, std::sync::atomic::Ordering::SeqCst);
                 if i >= cases.len() { break; }
+                // every case leaves its server's pool workers behind for up to the idle period
+                // (5 s): do not let them pile up into tens of thousands of threads
+                if i % 16 == 0 {
+                    while std::fs::read_dir("/proc/self/task").map(|d| d.count()).unwrap_or(0) > 2500 {
+                        std::thread::sleep(std::time::Duration::from_millis(50));
+                    }
+                }
                 let line = run_case(i as u64, &cases[i], tmpdir, &Timing::default());
                 *results[i].lock().unwrap() = Some(line);
             });
